@@ -571,6 +571,23 @@ class Interp:
             for t in st.targets:
                 if isinstance(t, ast.Name):
                     self.env.pop(t.id, None)
+                elif isinstance(t, ast.Subscript):
+                    base = self.eval(t.value)
+                    idx = self.eval_index(t.slice)
+                    if isinstance(base, list) and isinstance(idx, (int, slice)):
+                        try:
+                            del base[idx]
+                        except IndexError:
+                            raise RaiseSignal("IndexError", st)
+                    elif isinstance(base, dict):
+                        k = _hashable(idx)
+                        if k not in base:
+                            raise RaiseSignal("KeyError", st)
+                        del base[k]
+                    else:
+                        raise Undecided("del of an element of an abstract container")
+                else:
+                    raise Undecided("del target")
         elif isinstance(st, ast.Global):
             return
         else:
